@@ -245,8 +245,10 @@ def e2e_case(draw):
     n = draw(st.one_of(st.integers(1, 3), st.integers(3, 5)))
     pels = [draw(e2e_pel(i)) for i in range(n)]
     pels[0]['uh']['flags'] &= ~0x4000       # the first file is always displayed (-f uses it)
-    mode = draw(st.sampled_from(['-f', '-a', '-l', '--plid', '--src', '-j', 'parsePEL']))
+    mode = draw(st.sampled_from(['-f', '-a', '-l', '--plid', '--src', '-j', 'parsePEL', '-i', '--bmc-id']))
     return {'pels': pels, 'mode': mode, 'real': draw(st.integers(0, 9)) == 0,
+            # look-ups by id: the directory also holds copies of the log asked for (a back-up, another extension)
+            'copies': draw(st.lists(st.sampled_from(['.bak', '.pel', '~', '.1']), max_size=2, unique=True)),
             # output files left behind by an earlier run (longer than the new document)
             'stale_outputs': draw(st.booleans()), 'junk_between': draw(st.integers(0, 3)) == 0}
 
@@ -259,9 +261,20 @@ def end_to_end(case, note):
         names = []
         for i, p in enumerate(case['pels']):
             fn = os.path.join(d, 'pel%02d' % i)
+            if case['mode'] in ('-i', '--bmc-id'):
+                # the BMC's naming scheme (the id look-up goes by file name), ids distinct from the first file's
+                if i:
+                    p['ph']['eid'] = (case['pels'][0]['ph']['eid'] + i) & 0xFFFFFFFF
+                    p['ph']['obmc'] = (case['pels'][0]['ph']['obmc'] + i) & 0xFFFFFFFF
+                fn = os.path.join(d, '%016d_%08X' % (1718273645091827 + i, p['ph']['eid']))
             names.append(fn)
             with open(fn, 'wb') as f:
                 f.write(M.encode(p))
+            if i == 0 and case['mode'] in ('-i', '--bmc-id'):
+                for suffix in case.get('copies', []):
+                    with open(fn + suffix, 'wb') as f:
+                        f.write(M.encode(p))
+                    note.label('copy of the log asked for in the directory')
             if case.get('stale_outputs'):
                 with open(os.path.join(outdir, 'pel%02d.%08X.json' % (i, p['ph']['eid'])), 'w') as f:
                     f.write('{"stale": "%s"}\n' % ('x' * 20000))
@@ -300,7 +313,9 @@ def end_to_end(case, note):
                 def argv_for(od):
                     return {'-f': ['-f', names[0]], '-a': ['-p', d, '-a'], '-l': ['-p', d, '-l'],
                             '--plid': ['-p', d, '--plid', '50000001'], '--src': ['-p', d, '--src', 'BD'],
-                            '-j': ['-p', d, '-j', '-o', od]}[mode]
+                            '-j': ['-p', d, '-j', '-o', od],
+                            '-i': ['-p', d, '-i', '%08X' % case['pels'][0]['ph']['eid']],
+                            '--bmc-id': ['-p', d, '--bmc-id', str(case['pels'][0]['ph']['obmc'])]}[mode]
                 argv = argv_for(outdir)
                 status, out, err = main_inprocess(argv)
                 if status != 0:
